@@ -47,6 +47,8 @@
 //!   R4 pnl-conservation : sum(closed.pnl_realised) + open.pnl_realised
 //!                          == proceeds - cost - fees + signed open qty * open.price_entry_average  (+- rounding)
 //!   R5 fees-conservation : sum over all positions (fees_enter + fees_exit) == sum of fill fees (+- rounding)
+//!   (+- rounding, R3-R5: per fill max(1e-18 of the gross cash flow so far, 1e-12 of the gross cash flow of the
+//!   position the fill acts on) + 1e-24 - the statement does not fix the precision the implementation keeps)
 //!   R6 fill-ids : the fill id is recorded against exactly the position(s) the fill affected (the one
 //!      it modified / closed and the one it opened)
 //! R4/R5/R6 are evaluated incrementally (the residual of the identity must not change on a step) so a
@@ -145,6 +147,14 @@ impl Times {
 /// relative / absolute tolerance for "up to decimal rounding" (Decimal: 28 significant digits, scale <= 28)
 const REL_TOL: Decimal = dec!(0.000000000000000001); // 1e-18 of the gross cash flow so far
 const ABS_TOL: Decimal = dec!(0.000000000000000000000001); // 1e-24
+/// "up to decimal rounding" does not say at which precision the implementation rounds: an implementation
+/// that keeps its derived amounts (entry average, realised PnL, pro-rata fee share) to 13 or more
+/// significant figures is still exact up to rounding. Allowed per fill: 1e-12 of the cash that flowed
+/// through the position this fill acts on since that position was opened (this fill included). The scale
+/// is the position's own life, not the whole history, so a small position after a huge one is still
+/// judged at its own magnitude; rounding to a FIXED number of decimals is accepted exactly as long as it
+/// is below that relative precision at the magnitudes driven (the statement includes tiny magnitudes).
+const REL_TOL_POSITION: Decimal = dec!(0.000000000001); // 1e-12 of the position's own gross cash flow
 
 /// One alphabet symbol: indices into QTY / PRICE / FEE.
 #[derive(Debug, Clone, Copy, PartialEq, Eq, Hash, Serialize, Deserialize)]
@@ -221,6 +231,8 @@ struct Ledger {
     /// residuals of R4 / R5 after the previous step (0 as long as the identities hold)
     resid_pnl: Decimal,
     resid_fee: Decimal,
+    /// gross cash flow (price * quantity + fee per fill) of the fills of the currently open position
+    life_gross: Decimal,
 }
 
 #[derive(Clone)]
@@ -483,7 +495,16 @@ impl SeqModel for M {
             l.proceeds += price * q;
         }
         l.fees += fee;
-        let tol = (l.proceeds + l.cost + l.fees) * REL_TOL + ABS_TOL;
+        // scale of this step: the life of the position the fill acts on + the fill itself
+        let fill_gross = price * q + fee;
+        let step_gross = l.life_gross + fill_gross;
+        l.life_gross = match arm {
+            Arm::Close => Decimal::ZERO,
+            // the position a crossing fill opens starts its life with (at most) that fill
+            Arm::Open | Arm::Flip => fill_gross,
+            Arm::Increase | Arm::Reduce => step_gross,
+        };
+        let tol = ((l.proceeds + l.cost + l.fees) * REL_TOL).max(step_gross * REL_TOL_POSITION) + ABS_TOL;
         let a = arm.name();
 
         // ---- the real code
@@ -828,7 +849,7 @@ pub fn run(ctx: &Ctx) -> Outcome {
         assumptions: vec![
             "fills are on one instrument, price > 0, quantity > 0, fee >= 0 in the quote asset, fresh trade id per fill".into(),
             "every fill counts whatever its exchange timestamp (the statement quantifies over side, price, quantity, fee): equal, decreasing and zig-zag timestamps are driven besides increasing ones".into(),
-            "value alphabets avoid Decimal overflow; 'up to decimal rounding' = 1e-18 of the gross cash flow + 1e-24 per fill".into(),
+            "value alphabets avoid Decimal overflow; 'up to decimal rounding' = per fill the larger of 1e-18 of the gross cash flow so far and 1e-12 of the gross cash flow of the position the fill acts on (13 significant figures), + 1e-24".into(),
             "quantities are exact decimals: a net quantity of 1e-24 is a position, not zero (no epsilon)".into(),
             "quantity_abs_max, timestamps and the cost-basis method itself are not constrained by the statement and are not judged".into(),
         ],
